@@ -194,13 +194,23 @@ func runWedge(id string, parts []string) string {
 		badSt = env.SendRawTCP(strings.Split(l, "-")[0], bad, false)
 	case f["mode"] == "httpraw":
 		// [bad] is a raw (possibly malformed) HTTP request written to the DoH listener's socket as it is
-		badSt = env.SendRawTCP(strings.Split(l, "-")[0], bad, false)
+		if f["expect"] == "reply" {
+			// a complete, well-framed request: the listener must answer it (whatever the status) - a handler that
+			// never returns leaves the connection open and silent
+			badSt = env.SendRawTCPWait(strings.Split(l, "-")[0], bad, false, 3*time.Second)
+		} else {
+			badSt = env.SendRawTCP(strings.Split(l, "-")[0], bad, false)
+		}
 	default:
 		_, badSt = env.Query(l, bad, "-", 2*time.Second, 0)
 	}
 	key := hx.QuestionKey(q)
 	env.SetBehaviour(key, parseBehaviour(f["up"]))
-	resps, st := env.Query(l, q, "-", 8*time.Second, 20*time.Millisecond)
+	lq := l
+	if i := strings.IndexByte(lq, '@'); i >= 0 {
+		lq = lq[:i] // the decoration of the URL belongs to the malformed exchange only
+	}
+	resps, st := env.Query(lq, q, "-", 8*time.Second, 20*time.Millisecond)
 	env.TakeQueries(key)
 	return fmt.Sprintf("bad=%s st=%s n=%d", badSt, st, len(resps))
 }
